@@ -150,14 +150,30 @@ def _poly_case(case, mon):
     sigs = []
     nchecked = 0
     for _ in range(case["count"]):
-        kind = ["convex", "star", "nonconvex"][int(rng.integers(3))]
-        n = int(rng.integers(3, 81)) if kind != "nonconvex" else int(rng.integers(4, 31))
-        z = poly.polygon(rng, kind, n)
-        n = len(z)
-        size = np.abs(z - z.mean()).max()
-        scale0 = 10 ** rng.uniform(-3, 3)
-        off = (rng.uniform(-1, 1) + 1j * rng.uniform(-1, 1)) * size * scale0 * 10 ** rng.uniform(-2, 4)
-        z = z * scale0 * np.exp(1j * rng.uniform(0, 2 * np.pi)) + off
+        kind = ["convex", "star", "nonconvex", "rectilinear"][int(rng.integers(4))]
+        if kind == "rectilinear":
+            # axis-parallel rectangle on an integer grid with extra vertices ON its sides: runs of exactly collinear
+            # vertices, several vertices sharing the smallest x / y (pixel outlines look like this)
+            w, h = int(rng.integers(1, 6)), int(rng.integers(1, 6))
+            corners = [(0, 0), (w, 0), (w, h), (0, h)]
+            g = 12
+            pts = []
+            for (x0, y0), (x1, y1) in zip(corners, corners[1:] + corners[:1]):
+                cuts = sorted(set(int(c_) for c_ in rng.integers(1, g, int(rng.integers(0, 4)))))
+                for c_ in [0] + cuts:
+                    pts.append(complex(x0 * g + (x1 - x0) * c_, y0 * g + (y1 - y0) * c_))
+            z = np.array(pts) * float(2.0 ** rng.integers(-6, 7)) + complex(int(rng.integers(-50, 50)), int(rng.integers(-50, 50)))
+            n = len(z)
+            size = np.abs(z - z.mean()).max()
+            scale0 = 1.0
+        else:
+            n = int(rng.integers(3, 81)) if kind != "nonconvex" else int(rng.integers(4, 31))
+            z = poly.polygon(rng, kind, n)
+            n = len(z)
+            size = np.abs(z - z.mean()).max()
+            scale0 = 10 ** rng.uniform(-3, 3)
+            off = (rng.uniform(-1, 1) + 1j * rng.uniform(-1, 1)) * size * scale0 * 10 ** rng.uniform(-2, 4)
+            z = z * scale0 * np.exp(1j * rng.uniform(0, 2 * np.pi)) + off
         cw = bool(rng.integers(2))
         shift = int(rng.integers(n))
         zz = np.roll(z, -shift)
@@ -258,7 +274,14 @@ def _tissue_case(case, mon):
                            shift=complex(*rng.uniform(-1e3, 1e3, 2)))
     with env.Capture():
         kk = (0, 6) if not at.meta.get("kind", "").startswith("lat-") or rng.random() < 0.3 else 0
-        r = realise.realise(at, k=kk, rng=rng, relabel=bool(rng.integers(2)), shifts=True, flips="random")
+        pickled = rng.random() < 0.3
+        r = realise.realise(at, k=kk, rng=rng, relabel=bool(rng.integers(2)), shifts=True, flips="random",
+                            cell_id_base=1000 if pickled else 0)
+        if pickled:
+            # a mesh that went through pickle (multiprocessing, a cache on disk): equal ids are no longer the same objects
+            import pickle
+            r.vertices, r.edges, r.cells = pickle.loads(pickle.dumps((r.vertices, r.edges, r.cells)))
+            mon.count("tissue:pickled")
     for c in r.cells.values():
         c._fv_registry = r.cells
     cyc_ccw = []
